@@ -15,7 +15,7 @@
        an existing counter, and changes NOTHING when the condition is not met;
      - uint32 slices are sets: push adds the missing values, delete removes values and removes the
        record when the set becomes empty;
-     - reads never change anything.
+     - reads never change anything; the empty key is rejected by every handler that could create it.
    Inputs on which the documentation is silent (a slice operation applied to a key that holds a
    non-slice value) are outside the specification: [disc] flags them, see ApiProofs.v. *)
 From HV Require Import Base.Prelude Swamp.Api.
@@ -203,7 +203,8 @@ Definition spec_step (s : sstate) (q : request) : sstate * response :=
           match kvs with
           | None => (s, RErr EInvalid)
           | Some its =>
-              if negb create && negb over then (s, RSet [(Some ec_cannot, [])])
+              if existsb (fun it => Z.eqb (kv_key it) 0) its then (s, RErr EInvalid)
+              else if negb create && negb over then (s, RSet [(Some ec_cannot, [])])
               else if negb create && negb (s_exists s sw) then (s, RSet [(Some ec_noswamp, [])])
               else
                 let '(x, os) := s_set_items create over (s_summon s sw) its in
@@ -278,13 +279,16 @@ Definition spec_step (s : sstate) (q : request) : sstate * response :=
   | QInc t sw k by_ cond ne e =>
       if Z.eqb sw 0 then (s, RErr EInvalid)
       else if Z.eqb by_ 0 || negb (numeric t) then (s, RErr EInvalid)
+      else if Z.eqb k 0 then (s, RErr EInvalid)
       else
         let '(x, r) := s_inc (s_summon s sw) t k by_ cond ne e in
         (s_commit s sw x true, r)
   | QPush sw pairs =>
       match s_check s sw false with
       | Some e => (s, RErr e)
-      | None => (s_commit s sw (s_push_pairs (s_summon s sw) pairs) true, ROk)
+      | None =>
+          if existsb (fun p => Z.eqb (fst p) 0) pairs then (s, RErr EInvalid)
+          else (s_commit s sw (s_push_pairs (s_summon s sw) pairs) true, ROk)
       end
   | QSlDel sw pairs =>
       match s_check s sw false with
